@@ -36,6 +36,16 @@ BUILT['C40'] = ('resume', '4/C40',
     'Trusts: the typist (scripted input through the input queue); suspension points judged for equality are '
     'statement-loop polls; a QUIT inside a blocking statement is only required not to crash and to finish.')
 
+BUILT['C38'] = ('events', '4/C38',
+    'Schedule search: DSL programs (markers, ev ON/OFF/STOP in main code, subroutines, trap routines and the error '
+    'handler, ERROR/RESUME NEXT, GOSUB, FOR loops) run with KEY/TIMER/PEN/STRIG occurrences keyed by program '
+    'position (before line L executes for the c-th time, seen through the public step hook), several at one '
+    'boundary, under seeded trap-dispatch orders; the engine marker trace must be one of the traces of a '
+    'nondeterministic reference interpreter carrying the trap state machine of the property (branches only '
+    'where the property is silent). Also: occurrences after the program ended must not start handlers.',
+    'Trusts: the reference interpreter (~150 lines); GW-BASIC manual semantics where the property is silent '
+    '(RETURN re-enables unless OFF inside). COM and PLAY traps are not exercised (no serial back end; PLAY not modelled).')
+
 PURE = {
     'C02': 'pure function of two 16-bit operands: no schedule, clock, fault or history for a simulator to own (needs exhaustive enumeration/SMT)',
     'C03': 'pure function of a bit pattern: not a simulation target',
